@@ -694,6 +694,14 @@ func Generate(prop, tier string, seed uint64) []GenCase {
 	case "C10":
 		out = genBuiltinCalls("S-builtin", seed, 6*scale)
 		out = append(out, genPrograms("S-prog", seed+1, 100*scale, 5, nil)...)
+		for i := range out {
+			// standard error is watched too: the library has no business there
+			out[i].Case.Show = append(out[i].Case.Show, "stderr")
+			if out[i].IgnoreKeys == nil {
+				out[i].IgnoreKeys = map[string]bool{}
+			}
+			out[i].IgnoreKeys["e"] = true
+		}
 	default:
 		out = genSmoke(seed)
 	}
